@@ -39,6 +39,9 @@ type fakeRedis struct {
 	cmds  map[string]int64
 	keep  bool // keep a command log
 	yield bool // runtime.Gosched() before every command (concurrent kinds)
+
+	scanCursors map[uint64]string // open SCAN cursors: last key handed out
+	nextCursor  uint64
 }
 
 type fent struct {
@@ -247,23 +250,91 @@ func (f *fakeRedis) Del(ctx context.Context, keys ...string) *redis.IntCmd {
 
 // Scan returns every live key matching a "prefix*" pattern in one page (cursor 0), in
 // sorted order; the iterator of such a result never asks for another page.
+// Scan pages like a real server: at most COUNT (default 10) keys per reply and a cursor for
+// the rest. Cursors are stable under deletion of keys already returned (a cursor remembers
+// the last key handed out and continues with the keys after it in sorted order), which is
+// what SCAN guarantees for elements present during the whole iteration. The command carries
+// a process function, so go-redis' ScanIterator fetches the following pages through it.
 func (f *fakeRedis) Scan(ctx context.Context, cursor uint64, match string, count int64) *redis.ScanCmd {
+	cmd := redis.NewScanCmd(ctx, f.processScan, "scan", cursor, "match", match, "count", count)
+	_ = f.processScan(ctx, cmd)
+	return cmd
+}
+
+func (f *fakeRedis) processScan(ctx context.Context, c redis.Cmder) error {
+	cmd, ok := c.(*redis.ScanCmd)
+	if !ok {
+		return fmt.Errorf("fakeRedis: unexpected command %T", c)
+	}
+	args := cmd.Args()
+	var cursor uint64
+	var match string
+	var count int64
+	switch v := args[1].(type) {
+	case uint64:
+		cursor = v
+	case int64:
+		cursor = uint64(v)
+	case int:
+		cursor = uint64(v)
+	}
+	for i := 2; i+1 < len(args); i += 2 {
+		switch fmt.Sprint(args[i]) {
+		case "match":
+			match = fmt.Sprint(args[i+1])
+		case "count":
+			switch v := args[i+1].(type) {
+			case int64:
+				count = v
+			case int:
+				count = int64(v)
+			}
+		}
+	}
 	now := f.enter()
 	defer f.mu.Unlock()
-	f.logf("SCAN %d MATCH %s", cursor, match)
+	f.logf("SCAN %d MATCH %s COUNT %d", cursor, match, count)
 	f.count("scan")
 	if !strings.HasSuffix(match, "*") || strings.ContainsAny(strings.TrimSuffix(match, "*"), "*?[\\") {
-		return redis.NewScanCmdResult(nil, 0, fmt.Errorf("fakeRedis: unsupported pattern %q", match))
+		err := fmt.Errorf("fakeRedis: unsupported pattern %q", match)
+		cmd.SetErr(err)
+		return err
 	}
 	prefix := strings.TrimSuffix(match, "*")
+	after := ""
+	if cursor != 0 {
+		last, ok := f.scanCursors[cursor]
+		if !ok {
+			cmd.SetVal(nil, 0)
+			return nil
+		}
+		after = last
+		delete(f.scanCursors, cursor)
+	}
 	var keys []string
 	for key := range f.data {
-		if strings.HasPrefix(key, prefix) && f.live(key, now) != nil {
+		if strings.HasPrefix(key, prefix) && f.live(key, now) != nil && (cursor == 0 || key > after) {
 			keys = append(keys, key)
 		}
 	}
 	sort.Strings(keys)
-	return redis.NewScanCmdResult(keys, 0, nil)
+	page := count
+	if page <= 0 {
+		page = 10
+	}
+	next := uint64(0)
+	if int64(len(keys)) > page {
+		keys = keys[:page]
+		if f.scanCursors == nil {
+			f.scanCursors = map[uint64]string{}
+		}
+		f.nextCursor++
+		next = f.nextCursor
+		f.scanCursors[next] = keys[len(keys)-1]
+		f.count("scan_paged")
+	}
+	cmd.SetVal(keys, next)
+	return nil
 }
 
 // command counters (read by the case after the program, under the mutex)
